@@ -62,12 +62,19 @@ def _run_path(contract, case, schedule, lengths, budget, want_canaries=False):
                 _reject_engine_exception(e)  # a crash of the verifier must never be read as behaviour of the code
                 outcome = ("raise", type(e), e)     # the function under verification raised
             rz = contract.raises(S, case, env)
+            must = {E: (cnd[0] if isinstance(cnd, tuple) else cnd) for E, cnd in rz.items()}
+            may = {E: (cnd[1] if isinstance(cnd, tuple) else cnd) for E, cnd in rz.items()}
             if outcome[0] == "return":
-                for E, cond in rz.items():
+                for E, cond in must.items():
                     c.prove("raises[%s].absent" % E.__name__, S.lnot(cond),
                             "normal return although the contract demands %s" % E.__name__)
                 for clause in contract.post(S, case, env, outcome[1]):
                     nm, f = clause[0], clause[1]
+                    if nm in contract.bounded_clauses:
+                        rec.setdefault("bounded_skipped", set()).add(nm)
+                        continue                # carried by the bounded stand-in; never evaluated here
+                    if callable(f):
+                        f = f()
                     if lengths is None:
                         for h in clause[2:]:
                             c.prove_hint(h() if callable(h) else h)
@@ -87,7 +94,7 @@ def _run_path(contract, case, schedule, lengths, budget, want_canaries=False):
                             "raised %s: %s -- not allowed by the contract" % (E.__name__, outcome[2]))
                     rec["exc_trace"] = "".join(traceback.format_exception(E, outcome[2], outcome[2].__traceback__)[-6:])
                 else:
-                    c.prove("raises[%s].justified" % matched[0].__name__, rz[matched[0]],
+                    c.prove("raises[%s].justified" % matched[0].__name__, may[matched[0]],
                             "raised although the contract's condition for it does not hold")
                     for nm, f in contract.post_exc(S, case, env, outcome[2]):
                         c.prove("post_exc." + nm, f)
@@ -116,6 +123,7 @@ def _run_path(contract, case, schedule, lengths, budget, want_canaries=False):
     rec["obligations"] = c.obligations
     rec["decisions"] = [(d, ch) for d, ch in c.decisions]
     rec["lib"] = sorted(c.lib_used)
+    rec["bounded_skipped"] = sorted(rec.get("bounded_skipped", ()))
     rec["solver_s"] = c.solver_s
     rec["_S"] = S
     rec["alternatives"] = c.alternatives
@@ -152,6 +160,7 @@ def check_case(contract, case, tier="quick"):
     failed = []
     for p in paths:
         summary["lib"].update(p.get("lib", []))
+        summary.setdefault("bounded_clauses", set()).update(p.get("bounded_skipped", []))
         summary["solver_s"] += p.get("solver_s", 0)
         pr = {"outcome": p["outcome"], "schedule": p.get("schedule"), "n_obligations": len(p["obligations"])}
         if p["outcome"] in ("out-of-subset", "needs-contract", "path-limit", "engine-crash"):
@@ -206,6 +215,9 @@ def check_case(contract, case, tier="quick"):
     summary["canaries"] = canary
     summary["counterexamples"] = cex
     summary["lib"] = sorted(summary["lib"])
+    summary["bounded_clauses"] = sorted(summary.get("bounded_clauses", ()))
+    summary["proved_clauses"] = sorted({o["name"] for o in summary["obligations"] if o["status"] == "proved"}
+                                       - {o["name"] for o in summary["obligations"] if o["status"] != "proved"})
     summary["wall_s"] = round(time.time() - t0, 3)
     for p in paths:
         p.pop("_S", None)
@@ -268,12 +280,20 @@ def contract_stub(contract_cls, also=()):
         for nm, f in contract.requires(S, case, env):
             c.prove("%s.requires.%s" % (tag, nm), f, "precondition of %s at a call site" % contract.target)
         for E, cond in contract.raises(S, case, env).items():
+            if isinstance(cond, tuple):
+                mst, my = sym.to_z3(cond[0]), sym.to_z3(cond[1])
+                # required where `must`; where only `may` holds the callee is free: the caller must cope with both
+                free = z3.Bool(sym.fresh_name("callee_raises"))
+                cond = z3.Or(mst, z3.And(my, free))
             if c.decide(sym.to_z3(cond), "%s raises %s" % (tag, E.__name__)):
                 raise E("raised by the contract of %s" % contract.target)
         env["_fresh"] = "%s!%d" % (contract.name, next(_fresh_ids))
         result = contract.fresh_result(S, case, env)
         for clause in contract.post(S, case, env, result):
-            c.add(sym.to_z3(clause[1]))
+            if clause[0] in contract.bounded_clauses:
+                continue                        # not proved => must not be assumed by a caller
+            f = clause[1]
+            c.add(sym.to_z3(f() if callable(f) else f))
         c.assumed.append(contract.target)
         c.calls.append((contract.name, case, env, result))
         return result
